@@ -165,11 +165,11 @@ RichStrs == {VStr(<<101>>), VStr(<<101, 769>>), VStr(<<769>>), VStr(<<233>>), VS
 RichDates == {VDate(DS1), VDate(DS2), VDate(DY1), VDate(DY2), VDate(DY3)}
 RichScalars == {F03, F0102, F1up, F1dn, F25up} \cup RichDates \cup RichStrs
 \* sets and maps of dates and of close decimals in all insertion orders (C07: enumeration)
-OSetD == {VDate(D1), VDate(DS1), VDate(DY1), VDate(D3)}
-OSetF == {F03, F0102, VDec(1, 2), F1dn}
+OSetD == IF Tier = 3 THEN {VDate(D1), VDate(DS1), VDate(DY1)} ELSE {VDate(D1), VDate(DS1), VDate(DY1), VDate(D3)}
+OSetF == IF Tier = 3 THEN {F03, F0102, VDec(1, 2)} ELSE {F03, F0102, VDec(1, 2), F1dn}
 RichOrd == {VList(<<x>>) : x \in RichDates \cup {F03, F0102}}
            \cup {VSet(q) : q \in NDSeqs(OSetD, 3) \cup NDSeqs(OSetF, 2)}
-           \cup {VMap(q, [i \in 1..Len(q) |-> VInt(i)]) : q \in NDSeqs(OSetD, 2) \cup NDSeqs(OSetF, 2)}
+           \cup {VMap(q, [i \in 1..Len(q) |-> VInt(i)]) : q \in NDSeqs(OSetD, 2) \cup NDSeqs(OSetF, IF Tier = 3 THEN 1 ELSE 2)}
 RichEq  == {VList(<<x>>) : x \in {F03, F0102, VDate(DS1), VDate(DS2)}}
            \cup {VSet(<<F03, F0102>>), VSet(<<F0102, F03>>), VSet(<<VDate(DS1), VDate(D1)>>)}
 
